@@ -15,6 +15,7 @@ SPEC = {
         "goes through this one loop, and setup_communicate takes v[0].stdin out only after popen()? succeeded, so on "
         "failure the pipe is still inside ret[0] where (b) applies; (d) the error returned is the failing stage's "
         "own (the `?` residual of that very call)."
+        " (e) R14.5: no function waits for started children (drops their Popens, or calls a function that does) while its frame still holds the read end of a pipe those children write to — liveness follows the MIR drop flags; this reported D12 on the pinned tree (setup_communicate held err_read across a waiting popen())."
     ),
     "not_decided": "promptness as a time bound; whether an already started stage exits on EOF (child behaviour).",
     "trusted_base": ["rustc MIR and drop elaboration", "closing the write end delivers EOF", "mirlib dominance-by-removal, provenance, call graph"],
